@@ -50,11 +50,12 @@ class _FileProxy:
 
 
 class Sched:
-    def __init__(self, points=("open", "replace", "rename", "remove", "unlink", "fsync"), file_points=True, builtin_open=True, root=None):
+    def __init__(self, points=("open", "replace", "rename", "remove", "unlink", "fsync"), file_points=True, builtin_open=True, root=None, only=None):
         self.points = points
         self.file_points = file_points
         self.builtin_open = builtin_open
         self.root = os.fspath(root) if root else None     # only calls naming a path under root are scheduling points
+        self.only = only                                  # optional predicate on the path: further restriction
 
     # ---- actor side
     def _me(self):
@@ -68,7 +69,8 @@ class Sched:
                 p = os.fspath(a)
                 if isinstance(p, bytes):
                     p = os.fsdecode(p)
-                return os.path.abspath(p).startswith(self.root)
+                p = os.path.abspath(p)
+                return p.startswith(self.root) and (self.only is None or self.only(p))
         return True
 
     def _point(self, name, args, call, on_fault=None):
@@ -85,7 +87,7 @@ class Sched:
                 raise SystemExit
             fault = self.fault.pop(me, None)
             if fault:
-                self.trace.append((me, name, _short(args), "raise " + fault))
+                self.trace.append((me, name, self._sh(args), "raise " + fault))
                 if on_fault:
                     try:
                         on_fault()
@@ -95,14 +97,27 @@ class Sched:
             try:
                 r = call()
             except BaseException as e:  # noqa: BLE001
-                self.trace.append((me, name, _short(args), type(e).__name__))
+                self.trace.append((me, name, self._sh(args), type(e).__name__))
                 raise
-            self.trace.append((me, name, _short(args), "ok"))
+            self.trace.append((me, name, self._sh(args), "ok"))
             if self.after:
                 self.after(len(self.trace), me, name)
             return r
         finally:
             self.in_point[me] = False
+
+    def _sh(self, args):
+        out = []
+        for a in args[:2]:
+            if isinstance(a, (bytes, str, os.PathLike)):
+                p = os.fspath(a)
+                if isinstance(p, bytes):
+                    p = os.fsdecode(p)
+                p = os.path.abspath(p)
+                out.append(os.path.relpath(p, self.root) if self.root and p.startswith(self.root) else os.path.basename(p))
+            elif isinstance(a, int):
+                out.append(a)
+        return out
 
     # ---- controller side
     def run(self, actors, schedule=(), default="first", after=None):
